@@ -482,3 +482,48 @@ def t_run_frame():
     obl.append({"name": QR + "[frame]/cover:paths", "pc": [], "goal": z3.BoolVal(n >= 2), "kind": "cover"})
     info = {"function": QR, "source_sha": get_src().source_hash(QR), "where": get_src().where(QR), "paths": n, "assumptions": sorted(ex.used_assumptions)}
     return {"obligations": obl, "info": [info]}
+
+
+# ----------------------------------------------------------------------------- _generate_sessions: session start times accumulate (C06)
+QG = "SequentialRunner._generate_sessions"
+
+
+@task(QG + "[session]", props=["C06", "C18"], functions=[QG, "Session.__init__"], replay="whole_run")
+def t_generate_sessions():
+    """each configured session is created with the running start time, which then advances by exactly that session's iterationSteps:
+    session k starts at the sum of the lengths of the sessions before it"""
+    fn = get_src().funcs[QG][0]
+    loops = find_loops(fn, target_name="session_setting", kind=ast.For)
+    if len(loops) != 1:
+        raise Unsupported(f"anchor-lost: `for session_setting in session_settings` of {QG}")
+    loop = loops[0]
+    inner = [n for n in loop.body if isinstance(n, ast.If) and ast.unparse(n.test) == "'events' in session_setting"]
+    body = [s_ for s_ in loop.body if s_ not in inner]        # the event-creation part is outside this contract (classes resolved by reflection)
+    runner = sym_obj("SequentialRunner", "runner")
+    setting = V(("dict", ("str",), ("dyn",)), z3.Const("session_setting", REF))
+    start = V(("int",), z3.Const("start_so_far", z3.IntSort())); isess = V(("int",), z3.Const("i_session", z3.IntSort()))
+    env = {"self": runner, "session_setting": setting, "session_start_time": start, "i_session": isess, "i_event": V(("int",), z3.Const("i_event", z3.IntSort()))}
+    from .session import get as sget, has as shas
+    specs = {("m", "Simulator", "_add_session"): emit("AddSession")}
+
+    def assume(st):
+        return [z3.Implies(shas(st, setting, "iterationSteps"), dyn_is_int(sget(st, setting, "iterationSteps")))]
+    ex, st0, outs, obl = run_block(QG, body, env, specs=specs, assume=assume, label=QG + "[session]")
+    n = 0
+    for s1, kind, val in outs:
+        if kind == "raise":
+            s1.oblige("raises:ValueError only when sessionName or iterationSteps is missing", z3.And(z3.BoolVal(val[0] == "ValueError"), z3.Or(z3.Not(shas(st0, setting, "sessionName")), z3.Not(shas(st0, setting, "iterationSteps")))), "raises")
+            continue
+        n += 1
+        added = [t for t in s1.trace if t[0] == "AddSession"]
+        if len(added) != 1:
+            s1.oblige(f"trace:exactly one session is registered per configured session (got {len(added)})", z3.BoolVal(False), "trace"); continue
+        sess = V(("ref", "Session"), added[0][2][1])
+        s1.oblige("post:C06 the session is created with the start time accumulated so far, and with consecutive ids",
+                  z3.And(s1.read(sess, "session_start_time").term == start.term, s1.read(sess, "session_id").term == isess.term), "post")
+        s1.oblige("post:C06 the next session starts where this one ends: start time advances by exactly this session's iterationSteps",
+                  z3.And(s1.env["session_start_time"].term == start.term + dyn_int(sget(st0, setting, "iterationSteps")), s1.env["i_session"].term == isess.term + 1), "post")
+    obl.append({"name": QG + "[session]/cover:paths", "pc": [], "goal": z3.BoolVal(n >= 1), "kind": "cover"})
+    info = {"function": QG + " (per configured session, without the event-creation part)", "source_sha": get_src().source_hash(QG), "where": get_src().where(QG), "paths": n,
+            "assumptions": sorted(ex.used_assumptions)}
+    return {"obligations": obl, "info": [info]}
